@@ -9,8 +9,13 @@ Binding: every labelled tree TLC enumerates (LabelSpec of Trees.tla) for a (basi
 real find_additional_trees in worker processes (harness/rewrite.py); one record per tree and one per rewritten
 tree go to TLC (spec/RewriteJudge.tla), which decides every clause.  The driver must come back with its list
 for every tree: an exception or two consecutive watchdog expiries (20 s, ~1000x the slowest measured call) are
-violations of "rewriting terminates for every tree" / "every alternative tree ..."."""
-import collections, copy, json, random
+violations of "rewriting terminates for every tree" / "every alternative tree ...".  Every failing tree is re-run in
+a fresh process before it is reported (DESIGN.md 7.2); a binding self-test feeds corrupted records to the judge.
+
+Inputs (plan): the shipped bases, bases.USER_STYLE and FAMILY below (all six unary operators the rewriting looks at,
+one basis per subset of {-, /, pow} next to + and *): exhaustive up to the stated n, seeded random subsets of TLC's
+trees above (coverage['sampled'])."""
+import collections, copy, json, random, zlib
 from concurrent.futures import ThreadPoolExecutor
 
 from harness import scratch, tlc, evidence, bases, rewrite
@@ -65,7 +70,7 @@ def _enumerate(job):
         raise tlc.TLCError("LabelSpec %s n=%d: %d trees, not pairwise distinct" % (name, n, len(trees)))
     total = len(trees)
     if sample is not None and sample < total:
-        rng = random.Random(evidence.seed() * 1000003 + n)
+        rng = random.Random(evidence.seed() * 1000003 + zlib.crc32(("%s:%d" % (name, n)).encode()))
         trees = [trees[i] for i in sorted(rng.sample(range(total), sample))]
     return job, res, trees, total
 
